@@ -43,6 +43,9 @@ add("C13", T_EFF, "DESIGN.md §4 C13",
     "Typestate-like rules: an order that stays in the book must not leave the id map (two sites do, by construction: known findings), a successful cancel returns the very payload of the map removal for the update's own id, not-found only after a lookup that missed. May-property of sites; no schedule is explored.")
 add("C15", T_EFF, "DESIGN.md §4 C15",
     "Pairing rules: record_order_added once per add, record_order_removed once exactly on removal paths, record_execution once per maker visit with the transaction's quantity and the level/maker price; recorder and getter bodies use a single fetch_add/load on the field they name (no lost updates); only statistics.rs writes the named counters.")
+add("C18", "static analysis: panic-site inventory over the call-graph closure of the parsers + per-site discharge by dominating path facts and inductive loop invariants (custom rustc_private driver); no execution, no fuzzing", "DESIGN.md §4 C18",
+    "Every panic-capable site (MIR assert terminators, str/slice/Vec indexing, unwrap/expect/panic family, panicking arithmetic helpers) reachable from the 56 parser entry points is inventoried and must be discharged on every path by a named rule (length guard, prefix/suffix guard, find index, match+len, ASCII byte, char_indices, ordering, bounded sum) using dominating facts and Houdini-style loop invariants; loops must be iterator-driven or advance a bounded cursor; no recursion. Complete for crate-local code under a stated list of trusted-total std/serde callees; inputs are never fed to the parsers.",
+    "Trusted: the listed std / uuid / ulid / serde / serde_json callees are total; inputs shorter than 2 GiB; allocation succeeds. Undischargeable sites are reported (fail closed), so an exotic but safe idiom can cause a spurious report.")
 add("C19", T_EFF, "DESIGN.md §4 C19",
     "Shape of a ticketed FIFO over one id map on every path of every OrderQueue method: push/pop/remove/find primitives, constructors iterate forward and push each element once, len/is_empty/to_vec/Serialize read the map (never the ticket queue), listing = collect over map iteration sorted by timestamp, nobody else touches the containers. Stale tickets reported as a known finding. Pop order over arbitrary call sequences is not executed.")
 
